@@ -165,6 +165,7 @@ type outcome struct {
 	LenOK  bool    `json:"lenok"`
 	Text   string  `json:"text"`
 	PathPC bool    `json:"pathpc"` // this concretization has " pc=" inside a file path
+	Cut    bool    `json:"cut"`    // the name ends in the truncation marker: frames is a prefix
 	amb    bool
 	raw    string
 	err    string
@@ -287,8 +288,22 @@ func observe(text []byte, vt *valueTable) outcome {
 		o.Kind = "other"
 		return o
 	}
-	lines := expand(name)[1:]
+	const marker = "\ntruncated\n"
+	body := name
+	if strings.HasSuffix(name, marker) {
+		// a name that did not fit the size limit: the complete frame lines
+		// before the cut are read back (the last line may be partial)
+		o.Cut = true
+		body = name[:len(name)-len(marker)]
+		if k := strings.LastIndex(body, "\n"); k >= len(crashPrefix) {
+			body = body[:k]
+		}
+	}
+	lines := expand(body)[1:]
 	o.Kind = "name"
+	if o.Cut && len(lines) == 0 {
+		return o
+	}
 	if len(lines) == 1 && (lines[0] == `".:=0,+0x0` || lines[0] == `.:=0,+0x0`) {
 		return o // no PC resolved to a function
 	}
@@ -363,6 +378,10 @@ const (
 )
 
 var markerPCs []uint64
+
+// markerOverride, when set, replaces the marker functions of concretize (the
+// long-identifier reports).
+var markerOverride []uint64
 
 func initMarkers() {
 	if markerPCs != nil {
@@ -479,7 +498,11 @@ func concretize(kinds []string, variant int, rng *rand.Rand, vt *valueTable, pla
 				ln = pick(textAny)
 			}
 		case "LocPc", "LocParenPc", "LocPathPc":
-			real := markerPCs[npc%len(markerPCs)]
+			src := markerPCs
+			if markerOverride != nil {
+				src = markerOverride
+			}
+			real := src[npc%len(src)]
 			npc++
 			id, _ = vt.add(real)
 			var path string
@@ -709,6 +732,57 @@ func TestVerifC14Vec(t *testing.T) {
 		}
 		rt.Out(rec)
 	}
+	// ---- reports whose 16 frames have very long identifiers: the name cannot
+	// fit 4096 bytes.  The first frame's identifier grows by 10 bytes from one
+	// report to the next, which moves the later frame boundaries across every
+	// 10-byte window near the limit.
+	if len(in.Show) == 0 || show[1500000] {
+		kinds := []string{"SentOk1", "NoParen", "HdrRun"}
+		for i := 0; i < 17; i++ {
+			kinds = append(kinds, "SymPlain", "LocPc")
+		}
+		kinds = append(kinds, "Blank", "HdrOther", "SymPlain", "LocPc")
+		for j := range longP {
+			id := 1500000 + j
+			if len(in.Show) > 0 && !show[id] {
+				continue
+			}
+			markerOverride = []uint64{uint64(longP[j]())}
+			for _, f := range longL {
+				markerOverride = append(markerOverride, uint64(f()))
+			}
+			for len(markerOverride) < 20 {
+				markerOverride = append(markerOverride, markerOverride[1+len(markerOverride)%len(longL)])
+			}
+			vt := newValueTable()
+			var obs []outcome
+			var c0 concrete
+			var texts []string
+			for variant := 0; variant < 2; variant++ {
+				vr := rand.New(rand.NewSource(rt.Seed()*1000003 + int64(id)*31 + int64(variant)))
+				c := concretize(kinds, variant, vr, vt, false)
+				if variant == 0 {
+					c0 = c
+				}
+				obs = append(obs, observe([]byte(c.text), vt))
+				texts = append(texts, c.text)
+				calls++
+			}
+			markerOverride = nil
+			rec := recordOf("long", id, c0.attrs, c0.vid, obs)
+			rec["kinds"] = kinds
+			if show[id] || !obs[0].LenOK || obs[0].Kind != "name" {
+				var ds []rt.M
+				for _, o := range obs {
+					ds = append(ds, detail(o))
+				}
+				rec["texts"], rec["details"] = texts, ds
+			}
+			rec["namelen"] = len(obs[0].raw)
+			rec["cut"] = obs[0].Cut
+			rt.Out(rec)
+		}
+	}
 	rt.Out(rt.M{"kind": "summary", "vectors": len(in.Vectors), "calls": calls, "hung": hungOnce})
 }
 
@@ -770,7 +844,7 @@ func index(s []int, i int) int { return s[i] }
 func nilMap() { sinkMap["x"] = 1 }
 
 var scenarios = []string{"panic", "trap", "inline-trap", "inline-panic", "method-generic-closure", "rec8", "rec40",
-	"rec150", "rec400", "goroutine-panic", "goroutine-trap", "divzero", "index", "nilmap", "lockthread"}
+	"rec150", "rec400", "longnames", "goroutine-panic", "goroutine-trap", "divzero", "index", "nilmap", "lockthread"}
 
 func dispatch(s string) {
 	switch {
@@ -788,6 +862,8 @@ func dispatch(s string) {
 	case strings.HasPrefix(s, "rec"):
 		n, _ := strconv.Atoi(s[3:])
 		recurse(n, func() { leafTrap(sinkPtr) })
+	case s == "longnames":
+		longChain()
 	case s == "divzero":
 		sinkInt = divide(1, sinkInt*0)
 	case s == "index":
@@ -1135,7 +1211,16 @@ func TestVerifC14Real(t *testing.T) {
 		case !strings.HasPrefix(name, crashPrefix+"\n"):
 			rec["result"], rec["name"] = "fixed", name
 		default:
-			got := expand(name)[1:]
+			const marker = "\ntruncated\n"
+			body, cut := name, false
+			if strings.HasSuffix(name, marker) { // did not fit the size limit: complete lines before the cut
+				cut = true
+				body = name[:len(name)-len(marker)]
+				if k := strings.LastIndex(body, "\n"); k >= len(crashPrefix) {
+					body = body[:k]
+				}
+			}
+			got := expand(body)[1:]
 			gotTail := got
 			for i, ln := range got {
 				if strings.HasPrefix(ln, "runtime.gopanic:") {
@@ -1148,9 +1233,10 @@ func TestVerifC14Real(t *testing.T) {
 				ok = gotTail[i] == expTail[i]
 			}
 			// a shorter name is legitimate only through the 16-PC cap
-			if ok && len(gotTail) < len(expTail) && len(got) < 16 {
+			if ok && len(gotTail) < len(expTail) && len(got) < 16 && !cut {
 				ok = false
 			}
+			rec["cut"] = cut
 			rec["result"], rec["frames_ok"] = "name", ok
 			rec["got"], rec["want"] = got, exp
 			rec["len"] = len(name)
